@@ -31,7 +31,8 @@
 (***************************************************************************)
 EXTENDS ConnLifeNet, Integers, SequencesExt, FiniteSetsExt, Json
 
-CONSTANTS Q,        \* protocols that keep running
+CONSTANTS Sim,      \* simultaneous dials (two overlapping connections) are explored
+          Q,        \* protocols that keep running
           QD,       \* protocols that may shut down
           MaxCid,   \* connection ids 1..MaxCid
           Cap,      \* capacity of a protocol's event channel
@@ -91,7 +92,7 @@ MgrClosed(m, c) ==
 Connect(k) ==   \* k = 1: one connection, k = 2: simultaneous dials
   /\ nst < MaxStim /\ next + k - 1 <= MaxCid
   /\ \A c \in Cids : Dead(c)
-  /\ (k = 2 => mgr.pri = 0)
+  /\ (k = 2 => Sim /\ mgr.pri = 0)
   /\ mgr.sec = 0
   /\ LET c == next IN
      /\ next' = next + k
@@ -160,11 +161,13 @@ PConsume(q) ==
           [] OTHER -> UNCHANGED <<conn, svc, mon>>
   /\ NoStim /\ UNCHANGED <<open_, mch, mgr, next, nsub, kf>>
 
-\* keep-alive timeout of protocol q for connection c: the handle is downgraded
-Downgrade(q, c) ==
-  /\ open_[q] /\ c \in {svc[q].pri, svc[q].sec} /\ c # 0
-  /\ q \in conn[c].strong /\ conn[c].st = "running"
-  /\ conn' = [conn EXCEPT ![c].strong = @ \ {q}]
+\* keep-alive timeout for connection c: every protocol that tracks it downgrades its handle
+\* (the protocols' timers run independently; the intermediate states add nothing observable)
+Downgrade(c) ==
+  /\ conn[c].st = "running"
+  /\ LET qs == {q \in conn[c].strong : open_[q] /\ c \in {svc[q].pri, svc[q].sec}} IN
+     /\ qs # {}
+     /\ conn' = [conn EXCEPT ![c].strong = @ \ qs]
   /\ NoStim /\ UNCHANGED <<pch, open_, mch, mgr, svc, next, nsub, mon, kf>>
 
 \* TransportService::open_substream on the primary connection (only the successful call changes state)
@@ -332,7 +335,8 @@ Redial ==
 Next ==
   \/ Connect(1) \/ Connect(2)
   \/ \E c \in Cids : \/ AcceptDone(c) \/ TRemoteClosed(c) \/ TCommand(c) \/ TAllDropped(c) \/ TellMgr(c) \/ TExit(c)
-                     \/ \E q \in P : AcceptStep(c, q) \/ TInbound(c, q) \/ TellProto(c, q) \/ Downgrade(q, c)
+                     \/ Downgrade(c)
+                     \/ \E q \in P : AcceptStep(c, q) \/ TInbound(c, q) \/ TellProto(c, q)
                      \/ \E x \in conn[c].pend : \E ok \in BOOLEAN : TNegotiated(c, x, ok)
   \/ \E q \in P : PConsume(q) \/ POpen(q) \/ PForceClose(q) \/ DropProtocol(q)
   \/ MgrRecvClosed \/ Proof \/ Quiesce \/ Redial
@@ -352,8 +356,8 @@ RedialOK == (kf = {} /\ Quiescent) => mgr = [pri |-> 0, sec |-> 0]
 ServicesOK == (kf = {} /\ Quiescent) => \A q \in P : open_[q] => svc[q] = [pri |-> 0, sec |-> 0]
 \* nothing can get stuck short of quiescence (a blocked send is always eventually unblocked)
 NoStuck == (\E c \in Cids : ~Dead(c)) \/ ~Drained =>
-             \/ \E c \in Cids : ENABLED (TellMgr(c) \/ TExit(c) \/ TCommand(c) \/ TAllDropped(c) \/ AcceptDone(c))
-             \/ \E c \in Cids : \E q \in P : ENABLED (AcceptStep(c, q) \/ TellProto(c, q) \/ Downgrade(q, c))
+             \/ \E c \in Cids : ENABLED (TellMgr(c) \/ TExit(c) \/ TCommand(c) \/ TAllDropped(c) \/ AcceptDone(c) \/ Downgrade(c))
+             \/ \E c \in Cids : \E q \in P : ENABLED (AcceptStep(c, q) \/ TellProto(c, q))
              \/ \E c \in Cids : \E x \in conn[c].pend : ENABLED TNegotiated(c, x, FALSE)
              \/ \E q \in P : ENABLED PConsume(q)
              \/ ENABLED MgrRecvClosed
